@@ -409,4 +409,9 @@ def ms_round(t: Fraction):
 def lines_of(chars: typing.List[ExpChar], with_optional: bool):
   """Token lines: [[token, ...], ...] splitting on newline characters, dropping blank lines."""
   s = "".join(c.ch for c in chars if with_optional or not c.optional)
-  return [ln.split() for ln in re.split(r"\n+", s) if ln.split()]
+  return [toks(ln) for ln in re.split(r"\n+", s) if toks(ln)]
+
+
+def toks(line: str):
+  """Tokens of one line, split on XML white space only: other Unicode spaces (U+00A0, U+3000 ...) are characters of the text."""
+  return [t for t in re.split(r"[ \t\r\n]+", line) if t]
